@@ -82,9 +82,17 @@ def dest_arg(n):
     return args[i] if i < len(args) else None
 
 
-def elem_storage_local(arg):
-    """did of the local ElemStorage<E> object if arg is `<local>.ptr()`, else None."""
+def elem_storage_local(arg, linit=None):
+    """did of the local ElemStorage<E> object if arg is `<local>.ptr()` (possibly through local pointer variables
+    initialised with it), else None."""
     a = A.strip(arg)
+    hops = 0
+    while linit and isinstance(a, dict) and a.get('k') == 'ref' and a.get('dk') == 'local' and '*' in a.get('t', '') and hops < 4:
+        ini = linit.get(a.get('did'))
+        if not ini or ini[0] is None:
+            return None
+        a = A.strip(ini[0])
+        hops += 1
     if isinstance(a, dict) and a.get('k') == 'call' and A.cshort(a) == 'ptr' and a.get('obj') is not None:
         o = A.strip(a['obj'])
         if o.get('k') == 'ref' and o.get('dk') == 'local' and 'ElemStorage<' in o.get('t', ''):
